@@ -167,7 +167,7 @@ func (r *rewriter) rwE(n *Tree, slot reflect.Type, slotDesc string, optional boo
 			return r.descendE(n, optional, depth)
 		}
 		replRT := rootType(repl)
-		if replRT != nil && replRT.AssignableTo(slot) {
+		if replRT != nil && replRT.AssignableTo(slot) && wellTyped(repl) {
 			if env != nil && env.Ambiguous {
 				r.res.Ambiguous = true
 			}
@@ -188,6 +188,58 @@ func (r *rewriter) rwE(n *Tree, slot reflect.Type, slotDesc string, optional boo
 		r.res.Inadmissible++
 	}
 	return r.descendE(n, optional, depth)
+}
+
+// wellTyped reports whether every node of an instantiated tree fits the
+// place it stands in: the static Go type of each field / list element accepts
+// the node put there (a metavariable bound to a call cannot stand where the
+// syntax only allows a name: obj.x with x := g()), and the operand lists of
+// assignments and the name lists of value specs are not empty (an elision
+// that stands for nothing cannot be their only element).
+func wellTyped(t *Tree) bool {
+	if t == nil {
+		return true
+	}
+	switch t.Kind {
+	case KAlt:
+		for _, k := range t.Kids {
+			if !wellTyped(k) {
+				return false
+			}
+		}
+		return true
+	case KNode, KList:
+		if t.Kind == KNode && t.RT != nil {
+			switch t.RT.Elem().Name() {
+			case "AssignStmt":
+				for _, f := range []string{"Lhs", "Rhs"} {
+					if l := t.Field(f); l != nil && l.Kind == KList && len(l.Kids) == 0 {
+						return false
+					}
+				}
+			case "ValueSpec":
+				if l := t.Field("Names"); l != nil && l.Kind == KList && len(l.Kids) == 0 {
+					return false
+				}
+			}
+		}
+		for i, k := range t.Kids {
+			if k == nil {
+				continue
+			}
+			if (k.Kind == KNode || k.Kind == KAlt) && t.RT != nil {
+				if st := slotType(t, i); st != nil {
+					if rt := rootType(k); rt != nil && !rt.AssignableTo(st) {
+						return false
+					}
+				}
+			}
+			if !wellTyped(k) {
+				return false
+			}
+		}
+	}
+	return true
 }
 
 func rootType(t *Tree) reflect.Type {
@@ -338,6 +390,15 @@ func (r *rewriter) stmtRun(cont *Tree, elems []*Tree, nestedOpt bool, depth int,
 			r.res.Err = err
 		}
 		return plain(r), nil
+	}
+	for _, st := range inst {
+		if !wellTyped(st) {
+			// the instantiated statements cannot be built (a call where only
+			// a name may appear, an assignment without operands): the site is
+			// left unchanged
+			r.res.Inadmissible++
+			return plain(r), nil
+		}
 	}
 	if env != nil && env.Ambiguous {
 		r.res.Ambiguous = true
